@@ -90,12 +90,13 @@ CHECKS = {
         "exploration",
         "All 11 versions x every command (2,751 pairs) are enumerated on every pass; per pair Hypothesis draws sequence "
         "number, argument tuple and response tuple from type-directed strategies that also emit reference bytes computed "
-        "from first principles. The real ProtocolHandler.command() is called in positional, keyword and mixed form against a "
+        "from first principles. The real ProtocolHandler.command() is called in positional, keyword, mixed, reversed-keyword, plain-int and other-width-int form against a "
         "fake gateway: bytes must equal independent header(version, seq, id) + reference argument bytes; the reply built from "
         "the reference encoding must come back as exactly the drawn values with no trailing-data log, both as the call's "
-        "result and, unsolicited, at the callbacks. Frame-ID uniqueness, the inverse table and pinned IDs/wire shapes of 63 "
-        "core commands are enumerated.",
-        "Field order and types come from bellows' own tables except for the 63 pinned commands; zigpy value constructors trusted.",
+        "result and, unsolicited (twice), at the callbacks; every pair is also refused once with an invalidCommand frame. Frame-ID "
+        "uniqueness, the inverse table, pinned IDs/wire shapes of 63 core commands and a golden snapshot of IDs and wire shapes "
+        "(incl. optional / conditional struct fields) of all 2,751 pairs are enumerated.",
+        "Field order and types come from bellows' own tables; the 63 pins are spec-derived, the all-commands snapshot (tools/mkshapes.py) is a golden copy of the unchanged tree; zigpy value constructors trusted.",
         "exhaustive table enumeration x Hypothesis value generation; round-trip and differential against an independent encoder; metamorphic call forms",
         "DESIGN.md 4/C07",
     ),
